@@ -17,6 +17,8 @@ def main(argv=None):
     ap.add_argument("--family")
     ap.add_argument("--nproc", type=int)
     a = ap.parse_args(argv)
+    import logging
+    logging.getLogger("skfem").setLevel(logging.ERROR)  # monitors that judge warnings attach their own handler
     from . import engine
     try:
         mod = importlib.import_module("rv.monitors." + a.pid.lower())
